@@ -168,6 +168,15 @@ class LoopMixin:
             return set(fields)
         return set(self.last_written)
 
+    def mark_item_aliases(self, target, st):
+        """`for xs in d.values(): xs.append(..)`: the loop variable is the very container stored in the iterated container; the
+        engine binds a COPY (value semantics), so mutating it in place would lose the write: refused (unless `alias_ok`)."""
+        for n in ast.walk(target):
+            if isinstance(n, ast.Name) and n.id not in getattr(self.c, "alias_ok", ()):
+                v = st.env.get(n.id)
+                if v is not None and self.is_mutable_container(v):
+                    st.escaped.add(n.id)
+
     def drop_linked_names(self, names, body, st, node):
         """a local that is a LINK to a heap field (it aliases the field's container) is not a loop variable of its own: its
         value lives in the heap (havocked there).  Re-binding it inside the loop would make the link depend on the iteration."""
@@ -354,6 +363,7 @@ class LoopMixin:
             self.assume_allocated(h, item)
             hb = h.copy()
             self.bind_target(node.target, item, hb, node)
+            self.mark_item_aliases(node.target, hb)
             body_in = hb.copy()
             out_res = []
             for s2, o in self.exec_block(node.body, hb):
@@ -407,6 +417,7 @@ class LoopMixin:
             nxt = []
             for cur in live:
                 self.bind_target(node.target, it, cur, node)
+                self.mark_item_aliases(node.target, cur)
                 base = len(cur.pc)
                 ends = []
                 for s2, o in self.exec_block(node.body, cur):
